@@ -124,6 +124,10 @@ def record(rec):
         plain_again, _ = (_obs(lambda: ds) if not has_rng else (plain, None))
         out['untouched'] = out['untouched'] and before == after and plain_again == plain
         # hit counters: a fresh wrapper per measurement
+        node, background = prog, False
+        while node['op'] not in ('list', 'dict'):
+            background = background or node['op'] in ('prefetch', 'lpmap')
+            node = node['in']
         try:
             p = ProfilingDataset(build_logged(prog, []))
             try:
@@ -133,14 +137,25 @@ def record(rec):
             out['full'] = hits(p)
             for k in range(0, n + 1):
                 p = ProfilingDataset(build_logged(prog, []))
+                it = None
                 try:
                     it = iter(p)
                     list(itertools.islice(it, k))
+                except Exception:
+                    pass
+                # the report is read WHILE the iterator is still open (a loop that
+                # prints the profile every n steps) - unless a stage has a background
+                # thread, which may be in the middle of a fetch (counted when it starts)
+                open_read = not background
+                if open_read:
+                    out['takes'].append({'k': k, 'hits': hits(p)})
+                try:
                     if hasattr(it, 'close'):
                         it.close()
                 except Exception:
                     pass
-                out['takes'].append({'k': k, 'hits': hits(p)})
+                if not open_read:
+                    out['takes'].append({'k': k, 'hits': hits(p)})
             if idx:
                 for i in range(n):
                     p = ProfilingDataset(build_logged(prog, []))
